@@ -39,10 +39,13 @@ object is written (`mutate`: item store, in-place method, call of a helper whose
 `seq` / `ite` / `loop` / `stop` (return, raise).  `arun` is the forward may-alias analysis: the state is the set of names that may
 hold the tracked object; branches are joined by union; a loop is iterated to a post-fixpoint (checked — if it is not reached within
 the fuel the verdict is "may modify").  `C20_flow_sound` (Props/C20.lean) proves it against the path semantics `Exec`. -/
+/-- union of two sets of names (no duplicates added: the sets stay as small as the number of names) -/
+def junion (S T : List Nat) : List Nat := S ++ T.filter (fun x => !S.contains x)
+
 /-- `k` rounds of `S ↦ S ∪ step S` -/
 def iterJoin (step : List Nat → List Nat) : Nat → List Nat → List Nat
   | 0, S => S
-  | k + 1, S => iterJoin step k (S ++ step S)
+  | k + 1, S => iterJoin step k (junion S (step S))
 
 open Gen.Effects in
 /-- may-alias analysis: (names that may hold the tracked object after the statement, may the object have been modified) -/
@@ -58,7 +61,7 @@ def arun (fuel : Nat) : Flow → List Nat → List Nat × Bool
         | (S2, f2) => (S2, f1 || f2)
   | .ite a b, S =>
       match arun fuel a S, arun fuel b S with
-      | (S1, f1), (S2, f2) => (S1 ++ S2, f1 || f2)
+      | (S1, f1), (S2, f2) => (junion S1 S2, f1 || f2)
   | .loop a, S =>
       match arun fuel a (iterJoin (fun acc => (arun fuel a acc).1) fuel S) with
       | (S1, f1) => if S1.all ((iterJoin (fun acc => (arun fuel a acc).1) fuel S).contains ·) then (iterJoin (fun acc => (arun fuel a acc).1) fuel S, f1) else ([], true)
